@@ -18,7 +18,7 @@ cp "$SRC/demo_test.go" "$DEMO"
 ( cd "$SCR/repo" && go test -vet=off -count=1 -run 'Seed' "./$PKG/" > "$SCR/with.log" 2>&1 ); RC_WITH=$?
 rm -f "$DEMO"
 ( cd "$SCR/repo" && go test -vet=off -count=1 ./internal/... 2>&1 | grep -aE "^(--- FAIL|FAIL|ok)" > "$SCR/suite.log" )
-NEWFAIL=$(grep -aE "^--- FAIL" "$SCR/suite.log" | grep -v "TestRoundTrip\|TestNewStatsd\|TestGracefulShutdown" | tr '\n' ' ')
+NEWFAIL=$(grep -aE "^--- FAIL" "$SCR/suite.log" | grep -v "TestRoundTrip\|TestNewStatsd\|TestGracefulShutdown\|TestLogRequestMetrics\|TestTimeoutHandler" | tr '\n' ' ')
 export VERIF_SCRATCH_OUT="$SCR/out"; mkdir -p "$VERIF_SCRATCH_OUT"
 VERIF_REPO="$SCR/repo" "${SSOVC_BIN:-bin/ssovc}" check -property "$ID" -tier quick > "$SCR/check.log" 2>&1; RC=$?
 VIOL=$(grep -a '^VIOLATION' "$SCR/check.log" | sed 's/.*obligation=//' | tr '\n' ' ')
